@@ -27,13 +27,41 @@ def make_replay(prop):
         return RP.write_and_run(prop, job.name + "." + ob["name"], hdr, ['"TasmanianAddons.hpp"'], REPLAY.replace("@BUDGET@", str(bi)), "  main_replay();", lib="sg")
     return rp
 
+REPLAY_COMPLETE = r'''
+/* the real CandidateManager: two points are handed out, the candidate list is replaced by one that no longer contains the second, both complete */
+int main_replay(){
+  TasGrid::CandidateManager m(1, 2);
+  m = std::vector<double>{0.1, 0.2, 0.3};
+  std::vector<double> x = m.next(5);        /* 0.1 and 0.2 */
+  m = std::vector<double>{0.1, 0.3, 0.4};   /* 0.2 dropped out while it is being computed */
+  size_t before = m.getNumRunning();
+  m.complete(x);
+  std::printf("running before %zu, after completing %zu points: %zu running, %zu done\n", before, x.size(), m.getNumRunning(), m.getNumDone());
+  __CPROVER_assert(before == 2 && m.getNumRunning() == 0 && m.getNumDone() == 2, "F16c after every handed-out point completed nothing is running (also for a point that is no longer a candidate)");
+  return 0;
+}
+'''
+def replay_complete(prop):
+    def rp(job, ob, vals, wd):
+        hdr = "Replay against the real class.\nproperty %s job %s\nobligation %s: %s\nat %s" % (prop, job.name, ob["name"], ob["description"], ob["location"])
+        return RP.write_and_run(prop, job.name + "." + ob["name"], hdr, ['"TasmanianAddons.hpp"'], REPLAY_COMPLETE, "  main_replay();", lib="sg")
+    return rp
+
 def jobs(tier, seed, prop):
     nc, nd = (4, 2) if tier == "quick" else (5, 2)
     cf = ContractFile("contracts/candman.c")
     R = X.Rules()
     t, info = candman.emit_next(R)
     pre = '#include "tsg_shim.h"\nint tsg_exc;\n#define TSG_NC %d\n#define TSG_NDIM %d\n#line 1 "/verif/contracts/candman.c"\n' % (nc, nd) + cf.text(("text",))
-    return [Job("candman.next", pre + t + cf.text(("harness",), ["h_next"]), "h_next", unwind=nc * nd + 2, timeout=600,
+    Rc = X.Rules()
+    tc, infoc = candman.emit_complete(Rc)
+    t2 = [t_ for k, a, t_ in cf.sections if k == "text2"][0]
+    jc = Job("candman.complete", pre + t2 + tc + cf.text(("harness",), ["h_complete"]), "h_complete", unwind=nc * nd + 2, timeout=600, backends=[[], ["--sat-solver", "cadical"]],
+             functions=["%s:%d %s" % (f["file"], f["line"], f["name"]) for f in infoc["functions"]], info=infoc, replay=replay_complete(prop),
+             bounded="candidates <= %d, completed points <= %d, dimensions <= %d (full unwinding with unwinding assertions)" % (nc, nc, nd),
+             assumed=["find() returns any slot or 'not a candidate' (find itself is not under contract)", "std::forward_list running_jobs is a ghost list (count); the walk to the matching entry is one ghost call"],
+             label="CandidateManager::complete against F16c (counters, status marks, running-job list)")
+    return [jc, Job("candman.next", pre + t + cf.text(("harness",), ["h_next"]), "h_next", unwind=nc * nd + 2, timeout=600,
                 backends=[[], ["--sat-solver", "cadical"]],
                 functions=["%s:%d %s" % (f["file"], f["line"], f["name"]) for f in info["functions"]], info=info, replay=make_replay(prop),
                 bounded="candidates <= %d, dimensions <= %d (full unwinding with unwinding assertions)" % (nc, nd),
